@@ -13,9 +13,10 @@ CONSTANTS
     IdentityEvict = TRUE
     CloseReleasesBlob = TRUE
     CloseFiles = TRUE
+    StampOnlyOnSuccess = TRUE
 SPECIFICATION TraceSpec
 CONSTRAINT HighWater
 INVARIANTS HeldLayerServes AllReleasedAndEvictedFreesEverything ClosedMeansGone NoOpenFilesAfterClose FailedResolveLeaksNothing
-PROPERTIES ReadWorks ReturnedIsCached NoDuplicateCreation ResolveAgainWorks
+PROPERTIES ReadWorks ReturnedIsCached NoDuplicateCreation ResolveAgainWorks CheckNotFooled
 POSTCONDITION TraceAccepted
 CHECK_DEADLOCK FALSE
